@@ -22,7 +22,8 @@ def run_hcm(seq, law_=None):
     import pylife.stress.rainflow.recorders as RFR
     rec = RFR.FKMNonlinearRecorder()
     det = FNM.FKMNonlinearDetector(recorder=rec, notch_approximation_law=law_ or law())
-    s = np.array(seq, dtype=float)
+    import pandas as pd
+    s = seq if isinstance(seq, pd.Series) else np.array(seq, dtype=float)
     det.process_hcm_first(s).process_hcm_second(s)
     return rec, det
 
@@ -176,6 +177,33 @@ def b_second_pass(ctx):
                 got2 = sorted(zip(r2.loads_min.astype(float), r2.loads_max.astype(float)))
                 if [(round(a_ / 1e-11, 4), round(b_ / 1e-11, 4)) for a_, b_ in got2] != [(round(a_ / 1e-11, 4), round(b_ / 1e-11, 4)) for a_, b_ in want2] if vname == 'x 1e-9' else got2 != want2:
                     ctx.fail('C04:second-pass:unit-scale', f'pass 2 of {y2} ({vname}) records {got2}, periodic rainflow gives {want2}', {'sequence': y2})
+        # the same sequence as a single-point pandas Series whose index is not 0..n-1 (load steps counted from 1, time stamps, repeated labels): the rows in their
+        # order are the load history, labels mean nothing (added after seed C04-g indexed the Series by label in the junction helpers)
+        if (ctx._i % 3 == 1 or len(seq) > 4) and got_orig is not None:
+            import pandas as pd
+            tails = [list(seq), list(seq) + [seq[-1]]]
+            for y3 in tails:
+                ref3 = got_orig
+                if len(y3) != len(seq):
+                    try:
+                        rec, det = run_hcm(y3)
+                        c = rec.collective
+                        ref3 = sorted(zip(c[c.run_index == 2].loads_min.astype(float), c[c.run_index == 2].loads_max.astype(float)))
+                    except Exception:   # noqa
+                        continue
+                for cname, mk in (('load steps 1..n', lambda v: pd.Series(v, index=pd.RangeIndex(1, len(v) + 1, name='load_step'))),
+                                  ('time stamps', lambda v: pd.Series(v, index=pd.date_range('2024-01-01', periods=len(v), freq='s'))),
+                                  ('descending labels', lambda v: pd.Series(v, index=list(range(len(v), 0, -1))))):
+                    ctx.case(True, key=(tuple(y3), cname))
+                    try:
+                        rec, det = run_hcm(mk([float(v) for v in y3]))
+                        c = rec.collective
+                        got3 = sorted(zip(c[c.run_index == 2].loads_min.astype(float), c[c.run_index == 2].loads_max.astype(float)))
+                    except Exception as e:   # noqa
+                        ctx.fail(f'C04:series-container:raises:{type(e).__name__}', f'HCM on {y3} given as a Series ({cname}) raises {type(e).__name__}: {str(e)[:150]}', {'sequence': y3, 'container': cname})
+                        continue
+                    if got3 != ref3:
+                        ctx.fail('C04:series-container', f'pass 2 of {y3} given as a Series ({cname}) records {got3}, the same values as an array give {ref3}', {'sequence': y3, 'container': cname})
         # the same sequence as a multi-point signal (index levels load_step / node_id, two points with loads x1 and x0.5; the first listed point decides): load steps
         # labelled 0..n-1, labelled 10, 20, ... and rows listed point by point (added after seeds C04-d / C10-d dropped sort=False from a groupby over the load steps /
         # took every n-th row as the first point's history).  Load-step labels that are NOT ascending were tried as a fourth layout and withdrawn: whether a label or
@@ -206,8 +234,9 @@ def b_second_pass(ctx):
                 except Exception as e:   # noqa
                     ctx.fail(f'C04:multi-point-signal:{layout}:raises:{type(e).__name__}', f'HCM on the two-point signal ({layout}) of {seq} raises {type(e).__name__}: {str(e)[:150]}', {'sequence': seq, 'layout': layout})
                     continue
-                if got != want or not bool(r2.is_closed_hysteresis.all()):
-                    ctx.fail(f'C04:multi-point-signal:{layout}:{classify(seq)}', f'pass 2 of {seq} given as a two-point signal ({layout}) records {got} for the first point, periodic rainflow gives {want}', {'sequence': seq, 'layout': layout})
+                # compared with the single-point run of the same sequence (whatever that records: the known finding about a deferred last reversal is the same in both)
+                if got_orig is not None and got != got_orig:
+                    ctx.fail(f'C04:multi-point-signal:{layout}:{classify(seq)}', f'pass 2 of {seq} given as a two-point signal ({layout}) records {got} for the first point, the single-point run {got_orig}', {'sequence': seq, 'layout': layout})
     ctx.sample({'sequence': [100.0, -200.0, 300.0, -100.0, 200.0, -300.0], 'periodic_rainflow': periodic_rainflow([100, -200, 300, -100, 200, -300])})
 
 
@@ -395,6 +424,34 @@ def scalar_samples(o):
     r1 = o.run1(lambda: o.I.call(o.method(det, '_scalar_samples'), [s_]), label='_scalar_samples[array]')
     q = z3.Int('q_')
     o.prove('single-point input: the samples themselves', z3.And(r1.n == s_.n, z3.ForAll([q], z3.Implies(z3.And(q >= 0, q < s_.n), z3.Select(r1.a, q) == z3.Select(s_.a, q)))), kind='glue')
+    # single-point input given as a pandas Series (one index level, any labels): the helpers index the result BY POSITION (x[-1], x[k]), which for a Series with
+    # other labels than 0..n-1 is a label look-up - the result has to be the plain array of the values (added after seed C04-g returned the Series itself)
+    sv = o.array('series_values', 'real')
+
+    class Series1:
+        def pv_isinstance(self, cls):
+            return str(getattr(cls, 'label', '') or getattr(cls, 'tag', '') or getattr(cls, 'name', '')).endswith('Series')
+
+        def pv_asarray(self):
+            return sv
+
+        def pv_getattr(self, attr):
+            if attr == 'index':
+                class Ix:
+                    def pv_getattr(self_, a):
+                        if a == 'names':
+                            return PList([None])
+                        if a == 'nlevels':
+                            return 1
+                        raise AttributeError(a)
+                return Ix()
+            if attr in ('to_numpy',):
+                return Builtin(attr, lambda *a_, **k: sv)
+            if attr == 'values':
+                return sv
+            raise AttributeError(attr)
+    r2 = o.run1(lambda: o.I.call(o.method(det, '_scalar_samples'), [Series1()]), label='_scalar_samples[single-level Series]')
+    o.prove('single-point Series: the result is the positional array of its values, not the label-indexed Series', z3.BoolVal(r2 is sv), kind='glue')
 
 
 META = {
